@@ -141,12 +141,20 @@ def check_estimate(fx, R, cname, f, tag):
         R.undecided('V3', inst, 'JacobiSVD declaration not found')
         return None
     svdname, svddef = svd[0]
-    U = [n for n, (i, d) in decls.items() if d == ('.matrixU', svdname)]
-    V = [n for n, (i, d) in decls.items() if d == ('.matrixV', svdname)]
-    if len(U) != 1 or len(V) != 1:
-        R.undecided('V3', inst, 'u = svd.matrixU() / v = svd.matrixV() not found (U=%s V=%s)' % (U, V))
-        return None
-    u, v = U[0], V[0]
+    defs = {n: d for n, (i, d) in decls.items()}
+
+    def expand(x, depth=0):
+        if isinstance(x, str) and x in defs and defs[x] is not None and depth < 6 and x not in (svdname,):
+            return expand(defs[x], depth + 1)
+        if isinstance(x, tuple):
+            return tuple(expand(y, depth + 1) if i else y for i, y in enumerate(x))
+        return x
+    MU, MV = ('.matrixU', svdname), ('.matrixV', svdname)
+    rhs_x = expand(rhs)
+    u, v = MU, MV
+    # names that denote a factor / the product
+    factor_names = {n for n in defs if expand(n) in (MU, MV)}
+    product_names = {n for n in defs if contains(expand(n), MU) and contains(expand(n), MV)}
     # ---- V3 ----------------------------------------------------------------
     covs = [(i, e) for i, e in enumerate(ev) if e[0] == 'expr' and m(('+=', '$C', ('*', ('-', '$P1', '$M1'), ('.transpose', ('-', '$P2', '$M2')))), e[1], {})]
     if len(covs) != 1:
@@ -163,7 +171,7 @@ def check_estimate(fx, R, cname, f, tag):
     on_block = contains(svddef, ('.block', cb['$C'], 0, 0, 'CARTESIAN_DIM', 'CARTESIAN_DIM'))
     R.check(on_block, 'V3', inst + ':svd-input', 'the SVD is not taken of the CARTESIAN block of the accumulated covariance: %s' % (svddef,), 'SVD of cov.block(0,0,D,D)', fx.rel(f['loc']), 'E-SIB')
     form = None
-    core = rhs
+    core = rhs_x
     if m(('*', v, ('.transpose', u)), core, {}):
         form = 'V*U^T'
     elif m(('*', u, ('.transpose', v)), core, {}):
@@ -180,7 +188,7 @@ def check_estimate(fx, R, cname, f, tag):
                 'covariance is sum (%s)(%s)^T but the rotation is %s: this is the inverse rotation (needs %s first)' % (role1, role2, form, want),
                 'sum (%s)(%s)^T pairs with %s' % (role1, role2, form), fx.rel(ev[ri][2]['loc']), 'E-SIB')
     # ---- V1 ----------------------------------------------------------------
-    ok, why, loc = reflection_handled(ev, ri, u, v, rhs, D, decls)
+    ok, why, loc = reflection_handled(ev, ri, factor_names, product_names | {H}, rhs, rhs_x, D, decls, expand, MU, MV)
     if ok is None:
         R.undecided('V1', inst, why)
     else:
@@ -203,8 +211,15 @@ def check_estimate(fx, R, cname, f, tag):
         have = {e[1] for e in ev if e[0] == 'expr'}
         idx = {('sourceIndex', ('.member:sourcePointIndex', ('[]', 'correspondences', 'n'))), ('targetIndex', ('.member:targetPointIndex', ('[]', 'correspondences', 'n')))}
         haved = {e[1] for e in ev if e[0] == 'decl'}
-        R.check(want <= have and idx <= haved, 'V2', inst + ':means', 'means are not the means of the corresponded source/target points: missing %s' % (sorted(map(str, (want - have) | (idx - haved))),),
-                'means over the correspondence list, roles not swapped', fx.rel(f['loc']), 'E-SIB')
+        if want <= have and idx <= haved:
+            R.holds('V2', inst + ':means', 'means over the correspondence list, roles not swapped', fx.rel(f['loc']), 'E-SIB')
+        else:
+            swapped = {('+=', 'sourceMean', ('[]', 'sourcePoints', 'targetIndex')), ('+=', 'targetMean', ('[]', 'targetPoints', 'sourceIndex')),
+                       ('+=', 'sourceMean', ('[]', 'targetPoints', 'targetIndex')), ('+=', 'targetMean', ('[]', 'sourcePoints', 'sourceIndex'))} & have
+            if swapped:
+                R.violated('V2', inst + ':means', 'a mean is accumulated from the wrong set / index: %s' % (sorted(map(str, swapped)),), fx.rel(f['loc']), 'E-SIB')
+            else:
+                R.undecided('V2', inst + ':means', 'mean/covariance accumulation idiom not recognised (two-pass sums expected); missing %s' % (sorted(map(str, (want - have) | (idx - haved)))[:2],))
         pair_ok = (cb['$P1'], cb['$P2']) in ((('[]', 'sourcePoints', 'sourceIndex'), ('[]', 'targetPoints', 'targetIndex')), (('[]', 'targetPoints', 'targetIndex'), ('[]', 'sourcePoints', 'sourceIndex')))
     else:
         sm, tm = decls.get('sourceMean'), decls.get('targetMean')
@@ -221,10 +236,10 @@ def check_estimate(fx, R, cname, f, tag):
     return [(e[0], e[1], tuple(g[0] for g in e[3])) for e in ev[start:]]
 
 
-def reflection_handled(ev, ri, u, v, rhs, D, decls):
+def reflection_handled(ev, ri, factor_names, product_names, rhs, rhs_x, D, decls, expand, MU, MV):
     """(True/False/None, explanation, loc)."""
     last = D - 1
-    # idiom A: if (<det expr> < 0) { negate last column of v or u } before the store
+    # idiom A: if (<det expr> < 0) { negate last column of a factor } before the store
     for i, e in enumerate(ev[:ri]):
         if e[0] != 'if':
             continue
@@ -232,21 +247,31 @@ def reflection_handled(ev, ri, u, v, rhs, D, decls):
         if not contains_call(g, '.determinant'):
             continue
         dets = det_args(g)
-        if not dets or not all(names_in(d) & {u, v} for d in dets):
+        if not dets or not all(contains(expand(d), MU) or contains(expand(d), MV) for d in dets):
             continue
         sign_ok = isinstance(g, tuple) and g[0] in ('<',) and g[2] == 0
         sign_ok = sign_ok or (isinstance(g, tuple) and g[0] == '>' and g[1] == 0)
         body = [x for x in ev[i + 1:ri] if any(gg[2] is e[2] and gg[1] for gg in x[3])]
-        col_ok, which = negates_last_column(body, {u, v}, last)
         if not body:
             return False, 'determinant test at this point has an empty body: no correction is applied', e[2]['loc']
         if not sign_ok:
             return None, 'determinant test `%s` is not of the form det < 0' % (g,), e[2]['loc']
+        pcol, pwhich = negates_last_column(body, product_names, last)
+        if pcol is not None:
+            return False, ('the reflection correction negates a column of the product V*U^T (%s): V*U^T*S is a proper rotation but not V*S*U^T, the least-squares optimum - for coplanar 3-D sets '
+                           'about half of the inputs are mapped by the wrong rotation; the sign must be applied between the factors (to V or U)' % pwhich), e[2]['loc']
+        col_ok, which = negates_last_column(body, factor_names, last)
         if col_ok is None:
             return None, 'correction under the determinant test is not a negation of one column of u/v: %s' % ([x[1] for x in body],), e[2]['loc']
         if not col_ok:
             return False, 'the reflection correction negates column %s, not the last column %d (the one of the smallest singular value)' % (which, last), e[2]['loc']
+        if not contains(rhs, which.split(' ')[0]):
+            return None, 'the corrected factor %s is not the one used in the rotation %s' % (which, rhs), e[2]['loc']
         return True, 'rotation store is preceded by `if (%s) negate last column of %s`' % (pp_s(g), which), e[2]['loc']
+    # corrections applied after the store (to the block itself)
+    for i, e in enumerate(ev[ri + 1:]):
+        if e[0] == 'if' and contains_call(e[1], '.determinant'):
+            return False, 'a determinant correction is applied after the rotation has been stored (to the product): V*U^T*S is not the least-squares optimum V*S*U^T', e[2]['loc']
     # idiom B: V * D * U^T with D depending on a determinant
     b = {}
     if m(('*', ('*', '$A', '$D'), ('.transpose', '$B')), rhs, b) and isinstance(b['$D'], str):
@@ -254,7 +279,7 @@ def reflection_handled(ev, ri, u, v, rhs, D, decls):
         dep = [e for e in ev[:ri] if e[0] == 'expr' and contains(e[1], dn) and contains_call(e[1], '.determinant')]
         if dep:
             return True, 'rotation is %s*%s*%s^T with %s set from a determinant' % (b['$A'], dn, b['$B'], dn), dep[0][2]['loc']
-    if contains_call(rhs, '.determinant'):
+    if contains_call(rhs_x, '.determinant'):
         return None, 'rotation expression uses a determinant in a form not enumerated: %s' % (rhs,), None
     return False, ('the rotation block is assigned %s with no determinant correction on any path: for coplanar 3-D (or collinear-degenerate 2-D) point sets the SVD factors '
                    'can combine to a reflection (det = -1)' % pp_s(rhs)), None
